@@ -97,7 +97,7 @@ def rand_cmd(rng, weights=None, recent_flags: bool = False, two_boxes: bool = Fa
 
 def random_schedule(rng, nsess: int, ncmds: int, idle: bool = False,
                     weights=None, ro_prob: float = 0.15, idle_prob: float = 0.25,
-                    gate_idlers: bool = False, recent_flags: bool = False,
+                    gate_idlers: bool = False, recent_flags: bool = False, micro: float = 0.0,
                     fetch_after_select: bool = False, initial_select: float = 1.0,
                     two_boxes: bool = False) -> tuple[list, list]:
     """A schedule in driver actions, decided step by step against the REAL run
@@ -140,6 +140,10 @@ def random_schedule(rng, nsess: int, ncmds: int, idle: bool = False,
             if not acts:
                 break
             act, s = rng.choice(acts)
+            if act == 'step' and micro and rng.random() < micro:
+                run.micro(s)
+                log.append(('micro', s))
+                continue
             if act == 'issue':
                 if idle and s != 'a' and run.server_view(s) is not None and rng.random() < idle_prob:
                     cmd = ('idle',)
@@ -276,7 +280,7 @@ def main(prop: str, tier: str) -> int:
         if prop == 'C16':
             sessions, drive = random_schedule(
                 rng, nsess, rng.randint(3, 8), idle=True, idle_prob=0.7,
-                gate_idlers=rng.random() < 0.7, ro_prob=0.1,
+                gate_idlers=rng.random() < 0.6, ro_prob=0.1, micro=rng.choice([0.0, 0.5, 0.9]),
                 weights={'append': 25, 'expunge': 15, 'select': 0, 'examine': 0, 'close': 0})
         elif prop == 'C04':
             sessions, drive = random_schedule(
@@ -294,7 +298,8 @@ def main(prop: str, tier: str) -> int:
                          'uidexpunge': 0, 'check': 0})
         else:
             sessions, drive = random_schedule(rng, nsess, rng.randint(3, 7), idle=idle,
-                                              gate_idlers=rng.random() < 0.3)
+                                              gate_idlers=rng.random() < 0.3,
+                                              micro=rng.choice([0.0, 0.0, 0.5]))
         sr = SyncRun(init_flags=[rng.choice([(), (), ('\\Seen',), ('\\Deleted',)])
                                  for _ in range(rng.randint(2, 4))],
                      sessions=sessions, controlled=True, claim_recent=rng.random() < 0.5)
@@ -306,6 +311,11 @@ def main(prop: str, tier: str) -> int:
             run.notes.setdefault('harness_errors', []).append(e)
         traces.append(sr.events)
         meta.append({'kind': 'random-schedule', 'schedule': log})
+
+    # 3a. C01/C02: every pair (and a seeded sample of triples) of mutations by two sessions
+    # where the second session has not been told about the first one's change
+    if prop in ('C01', 'C02'):
+        pair_histories(run, rng, quick, traces, meta)
 
     # 3b. C17: life-cycle histories from the reference model RecentModel.tla (every edge)
     if prop == 'C17':
@@ -323,6 +333,12 @@ def main(prop: str, tier: str) -> int:
         line, clause = verdicts[i]
         mine = clause.startswith(prefix)
         clause, _, detail = clause.partition(':')
+        if prop == 'C16' and clause.startswith('C01_') and line:
+            # "updates pushed during IDLE obey the same sequence-number rules": a C01 clause
+            # that fails on data received while idling (or with the tagged end of IDLE) is C16's
+            sess = ev[line - 1].get('s')
+            last = [e for e in ev[:line] if e['e'] == 'start' and e.get('s') == sess]
+            mine = bool(last and last[-1]['k'] == 'idle')
         run.count_exec(signature(ev), nontrivial=nontrivial(ev), validated=not mine)
         if clause and not mine:
             other[clause] = other.get(clause, 0) + 1
@@ -335,6 +351,52 @@ def main(prop: str, tier: str) -> int:
     for m in (meta[0], meta[len(behs)] if len(meta) > len(behs) else meta[-1]):
         run.sample(m)
     return run.finish()
+
+
+MUTS = [('expunge',), ('uidexpunge', '101'), ('uidexpunge', '101:102'), ('uidexpunge', '102:103'),
+        ('store', False, '1:*', '+', False, ('\\Flagged',)), ('store', True, '103', '+', False, ('\\Deleted',)),
+        ('store', True, '101:102', '-', False, ('\\Deleted',)), ('store', False, '2', '=', True, ('\\Seen',)),
+        ('move', False, '1', 'Box'), ('move', True, '101:103', 'Box'), ('append', 'INBOX', 2, ()),
+        ('copy', False, '1:*', 'INBOX'), ('fetch', False, '1:*', True), ('fetch', True, '102', True),
+        ('close+select',)]
+
+
+def pair_histories(run, rng, quick, traces, meta) -> None:
+    """a mutates, b (not told) mutates, [a again], then everybody NOOPs at quiescence.
+    INBOX starts with 101, 102 \\Deleted, 103, 104 plain, all still unclaimed recent; c is a
+    passive third session that only EXAMINEs."""
+    hist = [(x, y) for x in MUTS for y in MUTS]
+    triples = [(x, y, z) for x in MUTS for y in MUTS for z in MUTS]
+    rng.shuffle(triples)
+    hist = hist + triples[:120 if quick else 2500]
+    for h in hist:
+        sr = SyncRun(init_flags=(('\\Deleted',), ('\\Deleted',), (), ()), sessions=['a', 'b', 'c'],
+                     controlled=False, claim_recent=False)
+        log = []
+
+        def cmd(s, c):
+            if c == ('close+select',):
+                cmd(s, ('close',))
+                cmd(s, ('select', 'INBOX'))
+                return
+            if sr.can_issue(s):
+                sr.issue(s, c)
+                sr.finish(s)
+                log.append((s, c))
+        try:
+            cmd('c', ('examine', 'INBOX'))
+            cmd('c', ('fetch', False, '1:*', False))
+            for s in ('a', 'b'):
+                cmd(s, ('select', 'INBOX'))
+                cmd(s, ('fetch', False, '1:*', False))
+            for i, c in enumerate(h):
+                cmd('ab'[i % 2], c)
+            sr.probe()
+            sr.probe()
+        finally:
+            sr.close()
+        traces.append(sr.events)
+        meta.append({'kind': 'pair-history', 'commands': log})
 
 
 def lifecycle_part(run, rng, quick, traces, meta) -> None:
